@@ -46,3 +46,30 @@ Theorem C03_ok : forall s h p c now,
   Spec.C03.ok s h p c (snd (tofu_check s h p c now)) (fst (tofu_check s h p c now)) = true.
 Proof. exact Tofu_proofs.ok_model. Qed.
 Print Assumptions C03_ok.
+
+(* ---- tie to the code (server/tls_protocol.py TLSTransportWrapper.write, _flush_outgoing): the statements of coq/Equiv/EquivTls.v, re-checked here against the definitions regenerated
+   from /repo's working tree (coq/Gen); see DESIGN.md 11.8 ---- *)
+From Coq Require Import List NArith Bool.
+From NV Require Import Prelude.Str Model.TlsPump Equiv.TlsGlue Gen.TlsGen.
+From NV Require Equiv.EquivTls.
+Theorem C03_code_flush_outgoing_tie : forall fuel s,
+  p_conn s = true -> p_transport s = true -> length (o_out s) < fuel ->
+  gen_flush_outgoing fuel s = (set_out s [], map PWrite (flush (o_out s)), None).
+Proof. exact EquivTls.flush_outgoing_tie. Qed.
+Print Assumptions C03_code_flush_outgoing_tie.
+
+Theorem C03_code_wrapper_write_tie : forall fuel s d,
+  p_conn s = true -> p_transport s = true -> o_out s = [] ->
+  length (concat (map frame (sendall d))) < fuel ->
+  gen_wrapper_write fuel s d = (s, map PWrite (wrapper_write d), None).
+Proof. exact EquivTls.wrapper_write_tie. Qed.
+Print Assumptions C03_code_wrapper_write_tie.
+
+Theorem C03_code_wrapper_write_tie_pending : forall fuel s d,
+  p_conn s = true -> p_transport s = true ->
+  length (o_out s ++ concat (map frame (sendall d))) < fuel ->
+  gen_wrapper_write fuel s d =
+  (set_out s [], map PWrite (flush (o_out s ++ concat (map frame (sendall d)))), None).
+Proof. exact EquivTls.wrapper_write_tie_pending. Qed.
+Print Assumptions C03_code_wrapper_write_tie_pending.
+
